@@ -403,7 +403,7 @@ def _explore_shard(h, shard, budget_s, path_timeout, max_fail_keep=40, max_sampl
 
 
 def _shard_task(arg):
-    (modname, tier, hid, shard_idx, budget_s, deadline, nshards, procs) = arg
+    (modname, tier, hid, shard_idx, budget_s, deadline, nshards, procs, pos) = arg
     t0 = time.time()
     try:
         h = load_harness(modname, tier, hid)
@@ -411,10 +411,10 @@ def _shard_task(arg):
         if nshards > procs:
             # an equal share of what is left of the slice for every shard not yet started (shards are handed out in
             # order): each one gets started, and time that finished shards did not need goes to the later, larger ones
-            budget_s = min(budget_s, max(3.0, (deadline - t0) * procs / max(1, nshards - shard_idx)))
+            budget_s = min(budget_s, max(3.0, (deadline - t0) * procs / max(1, nshards - pos)))
         budget_s = min(budget_s, deadline - t0)
         if budget_s < 1.0:
-            return dict(harness=hid, shard=shard, not_run=True, paths=0, ok=0, fail=0, ignored=0,
+            return dict(harness=hid, shard=shard, shard_idx=shard_idx, not_run=True, paths=0, ok=0, fail=0, ignored=0,
                         unknown=0, fails=[], samples=[], exhausted=False, queries=0, sat=0,
                         unsat=0, solver_s=0.0, validated=0, validated_bad=[],
                         functions_entered=[], hang_candidates=0, wall_s=0.0)
@@ -435,6 +435,7 @@ def _shard_task(arg):
                 res["exhausted"] = False
                 break
         res["attempts"] = attempts
+        res["shard_idx"] = shard_idx
         # ---- concrete replay of failures (outside CrossHair) and validation of passing paths
         replay_timeout = max(10.0, path_timeout * 5)
         nhang = 0
@@ -531,14 +532,41 @@ def run_harnesses(modname, tier, only=None, total_budget_s=None, procs=None, see
         args = []
         for i in range(len(h.shards)):
             cap = h.shard_budget or slice_s
-            args.append((modname, tier, h.id, i, cap, deadline, len(h.shards), procs))
+            args.append((modname, tier, h.id, i, cap, deadline, len(h.shards), procs, i))
+        first = {}
         with ctx.Pool(processes=min(procs, max(1, len(args))), maxtasksperchild=1) as pool:
             for r in pool.imap_unordered(_shard_task, args, chunksize=1):
-                results.append(r)
+                first[_shard_key(h, r)] = r
+        # Second pass: shards that were cut by their share (or never started) although the slice is not used up are
+        # explored again from an empty tree with what is left of the slice, shared among them only.
+        left = [i for i in range(len(h.shards))
+                if not first.get(i, {}).get("exhausted") and not first.get(i, {}).get("fail") and not first.get(i, {}).get("error")]
+        if left and len(h.shards) > procs and deadline - time.time() > 10.0:
+            args2 = [(modname, tier, h.id, i, h.shard_budget or slice_s, deadline, len(left), procs, pos)
+                     for pos, i in enumerate(left)]
+            with ctx.Pool(processes=min(procs, len(args2)), maxtasksperchild=1) as pool:
+                for r in pool.imap_unordered(_shard_task, args2, chunksize=1):
+                    k = _shard_key(h, r)
+                    old = first.get(k)
+                    if old is None or r.get("exhausted") or r.get("fail") or r.get("paths", 0) >= old.get("paths", 0):
+                        r["second_pass"] = True
+                        first[k] = r
+        results.extend(first.values())
     by_h = {}
     for r in results:
         by_h.setdefault(r["harness"], []).append(r)
     return hs, by_h
+
+
+def _shard_key(h, r):
+    """index of the shard a result belongs to"""
+    if "shard_idx" in r:
+        return r["shard_idx"]
+    sh = r.get("shard")
+    for i, x in enumerate(h.shards):
+        if x is sh or x == sh:
+            return i
+    return id(r)
 
 
 def with_signature(spec):
